@@ -19,6 +19,7 @@ pub struct Opts {
     pub use_sched: bool,
     pub events: bool,
     pub via_fs: bool,
+    pub dirty_out: bool,
 }
 
 fn fnv(data: &[u8]) -> String {
@@ -216,6 +217,10 @@ pub fn run_case(case: &Value, opts: &Opts, style_seed: Option<u64>) -> Value {
                 std::fs::write(&p, text).unwrap();
             }
             std::fs::create_dir_all(&in_dir).unwrap();
+            if opts.dirty_out {
+                // the output directory already holds the result of another build (the other pointer width)
+                let _ = pyxis::build(&in_dir, &out_dir, if ptr == 8 { 4 } else { 8 });
+            }
             pyxis::build(&in_dir, &out_dir, ptr).map_err(|e| ("build".to_string(), format!("{e:#}")))?;
             return Ok(json!({"reg": []}));
         }
